@@ -207,3 +207,82 @@ Definition probe_class (bodies : list (list ev)) (tag text : str) (conv : bool) 
       else if ev_list_eqb rest (spec_events false text) then 7 else 2
     else if ev_list_eqb rest (map EChar text) then 0 else 2
   end.
+
+(* ---- C12 ---- *)
+Definition bord_color (o : option bord) : list (option Z) :=
+  match o with Some b => [bd_cf b] | None => [] end.
+Definition run_colors (r : run) : list (option Z) := [rn_cf r; rn_cb r].
+Definition item_colors (i : item) : list (option Z) :=
+  match i with
+  | IRow r => flat_map (fun c => bord_color (ce_bl c) ++ bord_color (ce_bt c) ++ bord_color (ce_br c)
+                                 ++ bord_color (ce_bb c) ++ run_colors (ce_run c)) (rw_cells r)
+  | IPara _ rs => flat_map run_colors rs
+  | _ => []
+  end.
+Definition item_fonts (i : item) : list Z :=
+  match i with
+  | IRow r => map (fun c => rn_f (ce_run c)) (rw_cells r)
+  | IPara _ rs => map rn_f rs
+  | _ => []
+  end.
+
+Definition master_rgb (m : Z) : option (Z * Z * Z) :=
+  option_map (fun e => snd (snd e)) (find (fun e => Z.eqb (fst (snd e)) m) color_table).
+
+Definition rgb_eqb (a b : Z * Z * Z) : bool :=
+  let '(r1, g1, b1) := a in let '(r2, g2, b2) := b in Z.eqb r1 r2 && Z.eqb g1 g2 && Z.eqb b1 b2.
+
+(* one use: observed index k (in the document's own table) vs requested colour m (master index; 0 = default) *)
+Definition color_use_ok (table : option (list (Z * Z * Z))) (k m : option Z) : bool :=
+  match k, m with
+  | None, None => true
+  | Some k', Some m' =>
+    if Z.eqb m' 0 then Z.eqb k' 0
+    else match table, master_rgb m' with
+         | Some l, Some want =>
+           (0 <? k')%Z && match nth_error l (Z.to_nat (k' - 1)) with Some have => rgb_eqb have want | None => false end
+         | _, _ => false
+         end
+  | _, _ => false
+  end.
+
+Fixpoint all2 {A B} (f : A -> B -> bool) (a : list A) (b : list B) : bool :=
+  match a, b with
+  | [], [] => true
+  | x :: a', y :: b' => f x y && all2 f a' b'
+  | _, _ => false
+  end.
+
+Definition font_entry_ok (fonts : list (Z * list tok)) (f : Z) : bool :=
+  match find (fun e => Z.eqb (fst e) f) fonts, find (fun e => Z.eqb (fst e) (f + 1)) font_number_to_name with
+  | Some (_, toks), Some (_, name) =>
+    existsb (fun t => match t with TText s => str_eqb s (name ++ [59%N]) | _ => false end) toks
+  | _, _ => false
+  end.
+
+Definition all_items_pd (pd : pdoc) : list item := concat (pd_header pd) ++ concat (pd_footer pd) ++ pd_items pd.
+
+(* the model's items under NO colour context carry the master index of the requested colour *)
+Definition requested_items (d : doc) : res (list item) :=
+  do pages <- document_pages None d;
+  do h <- match text_shown (d_page_header d) with
+          | Some t => encode_text_line None (tc_attrs t) (opt_list (tc_text t)) | None => Ok [] end;
+  do f <- match text_shown (d_page_footer d) with
+          | Some t => encode_text_line None (tc_attrs t) (opt_list (tc_text t)) | None => Ok [] end;
+  Ok (h ++ f ++ concat pages).
+
+(* clause ids: 1 structure differs from the model's; 2 a colour index does not resolve to the requested
+   colour; 3 a font reference has no matching font-table entry; 4 model error *)
+Definition check_c12 (d : doc) (pd : pdoc) : nat :=
+  match requested_items d with
+  | Err _ => 4
+  | Ok want =>
+    let have := all_items_pd pd in
+    let hc := flat_map item_colors have in
+    let wc := flat_map item_colors want in
+    if negb (Nat.eqb (length hc) (length wc)) then 1
+    else if negb (all2 (color_use_ok (pd_colors pd)) hc wc) then 2
+    else if negb (all_b (font_entry_ok (pd_fonts pd)) (flat_map item_fonts have)) then 3
+    else if negb (list_eqb Z.eqb (flat_map item_fonts have) (flat_map item_fonts want)) then 3
+    else 0
+  end.
